@@ -219,6 +219,36 @@ def matrix_cases(tier):
     return cases
 
 
+def filter_effect_cases():
+    """groups that carry effects and have hidden members, composited with a layer_filter that accepts the hidden members:
+    the group's box then differs from its cached box (deterministic)"""
+    import copy
+    cases = []
+
+    def px(name, rect, val, **kw):
+        l, t, r, b = rect
+        n = {"t": "pixel", "name": name, "rect": list(rect), "color": np.full((b - t, r - l, 3), val, np.uint8),
+             "alpha": np.full((b - t, r - l), 255, np.uint8), "opacity": 255, "fill": None, "blend": "NORMAL", "visible": True,
+             "clip": False, "knockout": False, "mask": None}
+        n.update(kw)
+        return n
+    effects = [{"kind": "color", "color": [250, 20, 20], "opacity": 60, "blend": "Nrml"},
+               {"kind": "gradient", "stops": [[0, [0, 0, 255]], [4096, [255, 255, 0]]], "alpha_stops": None, "angle": 0, "opacity": 100,
+                "blend": "Nrml"}]
+    for e in effects:
+        for blend in ("PASS_THROUGH", "NORMAL"):
+            for kids in ("all-hidden", "hidden-larger", "hidden-apart"):
+                children = {"all-hidden": [px("h", [1, 1, 4, 3], 40, visible=False)],
+                            "hidden-larger": [px("v", [2, 1, 3, 3], 200), px("h", [0, 0, 5, 4], 40, visible=False, opacity=150)],
+                            "hidden-apart": [px("v", [0, 0, 2, 2], 200), px("h", [3, 2, 5, 4], 40, visible=False)]}[kids]
+                g = {"t": "group", "name": "g", "blend": blend, "opacity": 255, "fill": None, "visible": True, "clip": False, "knockout": False,
+                     "children": children, "effects": {"master": True, "items": [dict(e)]}}
+                doc = {"recipe": copy.deepcopy([px("bg", [0, 0, 5, 4], 120, opacity=220), g]), "size": [5, 4], "mode": "RGB"}
+                cases.append({"doc": doc, "stream": "fx-filter", "variant": "filter", "filter": {"hidden_ok": ["h"], "drop": []}})
+                cases.append({"doc": doc, "stream": "fx-filter", "variant": "plain"})
+    return cases
+
+
 def random_cases(ctx, n):
     rng = ctx.rng
     nprng = np.random.RandomState(rng.randrange(2 ** 32))
@@ -367,7 +397,7 @@ def run(ctx, st):
     corpus_file = core.VERIF / "harness" / "corpus" / "C11fx.json"
     if corpus_file.exists():
         process(ctx, [case_from_json(j) for j in json.loads(corpus_file.read_text())], st, "corpus")
-    mcases = matrix_cases(ctx.tier)
+    mcases = matrix_cases(ctx.tier) + filter_effect_cases()
     for k in range(0, len(mcases), 600):
         process(ctx, mcases[k:k + 600], st, "matrix")
     cases = random_cases(ctx, 90 if ctx.quick else 1500)
